@@ -316,8 +316,13 @@ def write_evidence(ctx, level, coverage, nviol):
         'wall_s': round(ctx.elapsed(), 2),
         'violations': nviol,
     }
-    os.makedirs(os.path.join(VERIF, 'evidence'), exist_ok=True)
-    p = os.path.join(VERIF, 'evidence', f'{ctx.pid}.json')
+    # evidence/ describes runs against /repo only; a run against another tree (VERIF_REPO=<scratch worktree>, used to
+    # evaluate seeded changes) or a replay of one recorded case is written next to the scratch files instead
+    evdir = os.path.join(VERIF, 'evidence')
+    if os.path.realpath(REPO) != '/repo' or getattr(ctx, 'replay', None):
+        evdir = os.path.join(VERIF, '.work', 'evidence-other-tree')
+    os.makedirs(evdir, exist_ok=True)
+    p = os.path.join(evdir, f'{ctx.pid}.json')
     tmp = p + f'.tmp{os.getpid()}'
     with open(tmp, 'w') as fh:
         json.dump(ev, fh, indent=1, sort_keys=True, default=str)
